@@ -26,3 +26,45 @@ ob("c14_HLcreate", "C14", entry="h_c14_HLcreate", enforce="HLcreate", **HL)
 ob("c14_HLconvert", "C14", entry="h_c14_HLconvert", enforce="HLconvert", **HL)
 ob("c14_HLIstaccess_w", "C14", entry="h_c14_HLIstaccess", enforce="HLIstaccess", **HL)
 ob("c14_HLsetblockinfo", "C14", entry="h_c14_HLsetblockinfo", enforce="HLsetblockinfo", **HL)
+
+# ----------------------------------------------------------------------------- vgp.c
+VGTR = C14STUBS + ["tbbtdfind/tbbtdins/tbbtrem stubs (units/c14_vgp_u.c): file id -> vfile_t, ref -> vgroup instance (A-TBBT)",
+                   "HAatom_object/HAatom_group one-entry maps (units/c14_vgp_u.c)"]
+# unwind=4: as for hblocks.c (loops lie behind the gates); 4 lets libc strlen of the 2-character test name finish when a gate is missing
+VG14 = dict(unit="c14_vgp_u.c", file="hdf/src/vgp.c", objbits=10, cex_unwind=6, unwind=4, trusted=VGTR)
+ob("c14_Vattach_w", "C14", entry="h_c14_Vattach_w", enforce="Vattach", **VG14)
+ob("c14_Vdelete", "C14", entry="h_c14_Vdelete", enforce="Vdelete", **VG14)
+ob("c14_Vsetname", "C14", entry="h_c14_Vsetname", enforce="Vsetname", **VG14)
+ob("c14_Vsetclass", "C14", entry="h_c14_Vsetclass", enforce="Vsetclass", **VG14)
+ob("c14_Vinsert", "C14", entry="h_c14_Vinsert", enforce="Vinsert", **VG14)
+ob("c14_Vaddtagref", "C14", entry="h_c14_Vaddtagref", enforce="Vaddtagref", **VG14)
+ob("c14_Vdeletetagref", "C14", entry="h_c14_Vdeletetagref", enforce="Vdeletetagref", **VG14)
+ob("c14_Vdetach", "C14", entry="h_c14_Vdetach", enforce="Vdetach", mode="bounded",
+   bound="group of <= 1 member, no name/class/attributes (vpackvg loops unwound)", **VG14)
+
+# ----------------------------------------------------------------------------- vio.c
+VSTR = C14STUBS + ["V-layer environment (stubs/c14_vsenv.h): tbbtdfind/tbbtdins/tbbtrem, Get_vfile, HAatom_* one-entry maps (A-TBBT)"]
+VS14 = dict(objbits=10, cex_unwind=6, unwind=4, trusted=VSTR)
+VIO = dict(unit="c14_vio_u.c", file="hdf/src/vio.c", **VS14)
+ob("c14_VSattach_w", "C14", entry="h_c14_VSattach_w", enforce="VSattach", **VIO)
+ob("c14_VSdelete", "C14", entry="h_c14_VSdelete", enforce="VSdelete", **VIO)
+ob("c14_VSappendable", "C14", entry="h_c14_VSappendable", enforce="VSappendable", **VIO)
+
+# ----------------------------------------------------------------------------- vg.c
+VGC = dict(unit="c14_vg_u.c", file="hdf/src/vg.c", **VS14)
+ob("c14_VSsetname", "C14", entry="h_c14_VSsetname", enforce="VSsetname", **VGC)
+ob("c14_VSsetclass", "C14", entry="h_c14_VSsetclass", enforce="VSsetclass", **VGC)
+ob("c14_VSsetinterlace", "C14", entry="h_c14_VSsetinterlace", enforce="VSsetinterlace", **VGC)
+
+# ----------------------------------------------------------------------------- vrw.c, hextelt.c, hcomp.c, hchunks.c
+ob("c14_VSwrite", "C14", entry="h_c14_VSwrite", enforce="VSwrite", unit="c14_vrw_u.c", file="hdf/src/vrw.c", **VS14)
+GATE = dict(objbits=10, cex_unwind=4, unwind=1, trusted=C14STUBS)
+ob("c14_HXcreate", "C14", entry="h_c14_HXcreate", enforce="HXcreate", unit="c14_hextelt_u.c", file="hdf/src/hextelt.c", **GATE)
+ob("c14_HCcreate", "C14", entry="h_c14_HCcreate", enforce="HCcreate", unit="c14_hcomp_u.c", file="hdf/src/hcomp.c", **GATE)
+ob("c14_HMCcreate", "C14", entry="h_c14_HMCcreate", enforce="HMCcreate", unit="c14_hchunks_u.c", file="hdf/src/hchunks.c", **GATE)
+
+# ----------------------------------------------------------------------------- mfsd.c (netCDF layer: handle->flags & NC_RDWR)
+ob("c14_SDcreate", "C14", entry="h_c14_SDcreate", enforce="SDcreate", unit="c14_mfsd_u.c", file="mfhdf/src/mfsd.c", mode="bounded",
+   bound="rank == 0 (scalar dataset: the dimension loop is not entered)", objbits=10, unwind=2, cex_unwind=4,
+   trusted=["NC_check_id/NC_new_var/NC_new_array/NC_incr_array/NC_var_shape/hdf_unmap_type stubs (units/c14_mfsd_u.c)",
+            "HEpush/HEreport/HEPclear (stubs/h4v_err.h)"])
